@@ -6,12 +6,17 @@
   steps of wait / wait_timeout / try_wait / post / get_value, with a time-out or cancellation `Env.abort`
   possible at every park). The same `step` function is what the driver executes when it replays
   implementation traces.
+
+  SyncFlag: `run (init n) sched` of `Model/Sync/SyncFlag.lean`, all interleavings of fire / wait / wait_timeout /
+  is_fired with time-outs and cancellations; the latch theorems need `n < MAXI` (= isize::MAX): fewer than
+  isize::MAX threads/coroutines, hence fewer than isize::MAX concurrent waits.
 -/
-import MayVerif.Proof.Sync.Sem.Step
+import MayVerif.Proof.Sync.Sem.LedStep
+import MayVerif.Proof.Sync.SyncFlag.Step
 namespace MayVerif.Sem
 
 /-- `expect("got null blocker!")` never fires: whenever an actor is about to pop the waiter queue, it is non-empty. -/
-theorem sem_pop_never_empty (n i : Nat) (sched : List (Tid × Env)) (t : Tid) (ht : t < n)
+theorem sem_pop_never_empty (n i : Nat) (sched : List (Nat × Env)) (t : Nat) (ht : t < n)
     (hp : atPop ((run (init n i) sched).pcs t) = true) : (run (init n i) sched).sh.q ≠ [] := by
   have h := inv_run _ sched (inv_init n i)
   have hn : (run (init n i) sched).n = n := by simpa [init] using run_n (init n i) sched
@@ -28,13 +33,13 @@ theorem sem_pop_never_empty (n i : Nat) (sched : List (Tid × Env)) (t : Tid) (h
 
 /-- **Hand-over happens at most once**: when a post races with a waiter's time-out or cancellation, never do both
     the waker and the aborting waiter re-post the permit (which would duplicate it). -/
-theorem sem_handoff_at_most_once (n i : Nat) (sched : List (Tid × Env)) : (run (init n i) sched).sh.dup = false :=
+theorem sem_handoff_at_most_once (n i : Nat) (sched : List (Nat × Env)) : (run (init n i) sched).sh.dup = false :=
   (inv_run _ sched (inv_init n i)).nodupDuty
 
 /-- **Hand-over happens at least once**: a blocker that was popped by a post (`vph = v4`: the waker is done) and
     whose owner timed out or was cancelled (`aph = a5`: the abort path is done) has had its permit re-posted by
     exactly one of the two. The permit is never lost with an aborted waiter. -/
-theorem sem_handoff_committed (n i : Nat) (sched : List (Tid × Env)) (b : Bid)
+theorem sem_handoff_committed (n i : Nat) (sched : List (Nat × Env)) (b : Nat)
     (ha : (run (init n i) sched).sh.aph b = .a5) (hv : (run (init n i) sched).sh.vph b = .v4) :
     (run (init n i) sched).sh.duty b = true := by
   have h := (inv_run _ sched (inv_init n i)).ok b
@@ -45,9 +50,9 @@ theorem sem_handoff_committed (n i : Nat) (sched : List (Tid × Env)) (b : Bid)
     idle or parked (nobody is mid-operation) and a permit is free, then every parked waiter already holds its
     wake-up token, i.e. its park returns `Ok` and its wait succeeds – with stale blockers of timed-out / cancelled
     waiters possibly still in the queue. Under a fair scheduler this is the absence of a lost wake-up. -/
-theorem sem_no_stranded_waiter (n i : Nat) (sched : List (Tid × Env))
+theorem sem_no_stranded_waiter (n i : Nat) (sched : List (Nat × Env))
     (hq : ∀ t, t < n → (run (init n i) sched).pcs t = .idle ∨ ∃ b, (run (init n i) sched).pcs t = .w5park b)
-    (hfree : (run (init n i) sched).sh.cnt > 0) (t : Tid) (_ht : t < n) (b : Bid)
+    (hfree : (run (init n i) sched).sh.cnt > 0) (t : Nat) (_ht : t < n) (b : Nat)
     (hp : (run (init n i) sched).pcs t = .w5park b) : (run (init n i) sched).sh.tok b = true := by
   have h := inv_run _ sched (inv_init n i)
   have hn : (run (init n i) sched).n = n := by simpa [init] using run_n (init n i) sched
@@ -79,6 +84,45 @@ theorem sem_no_stranded_waiter (n i : Nat) (sched : List (Tid × Env))
     cases hv : s.sh.vph b <;> simp_all
   exact h.n3 t b (by simp [hp, owns]) (Or.inr (Or.inr hv4))
 
+/-- **Permits are conserved** (the ledger of DESIGN Appendix A, steps 5–7). `S` counts the wait / wait_timeout /
+    try_wait calls that returned true, `PX` the `post()` calls whose fetch_add has been performed.
+    (a) At every instant of every interleaving, successes never exceed the initial value plus the posts: no permit
+        is duplicated by a time-out / cancellation racing a post.
+    (b) Once all calls have returned (every actor idle) the value `get_value()` reads is exactly
+        `init + posts − successes`: no permit is lost either – also not with an aborted waiter, whose stale blocker
+        may still be in the queue. -/
+theorem sem_permits_conserved (n i : Nat) (sched : List (Nat × Env)) :
+    ((run (init n i) sched).sh.S : Int) ≤ i + (run (init n i) sched).sh.PX ∧
+    ((∀ t, t < n → (run (init n i) sched).pcs t = .idle) →
+      value (run (init n i) sched) = (i : Int) + (run (init n i) sched).sh.PX - (run (init n i) sched).sh.S) := by
+  have h := inv_run _ sched (inv_init n i)
+  have hL := led_run i _ sched (inv_init n i) (led_init n i)
+  have hn : (run (init n i) sched).n = n := by simpa [init] using run_n (init n i) sched
+  generalize run (init n i) sched = s at *
+  have hla := hL.la; have hls := hL.ls; have hk4 := hL.k4
+  have hcb := h.cb; have hc3 := h.c3
+  constructor
+  · have htr := led_transit i s h hL
+    by_cases hc : s.sh.cnt < 0
+    · simp only [hc, if_true] at hcb; omega
+    · simp only [hc, if_false] at hcb; omega
+  · intro hq
+    have hq' : ∀ t, t < s.n → s.pcs t = .idle := by intro t ht; exact hq t (by omega)
+    have htr := led_transit_idle i s h hL hq'
+    have hP0 : cntOf s.n atPop s.pcs = 0 := by
+      apply cntOf_zero_of; intro u hu; simp [hq' u hu, atPop]
+    have hC0 : cntOf s.n atComp s.pcs = 0 := by
+      apply cntOf_zero_of; intro u hu; simp [hq' u hu, atComp]
+    unfold value
+    by_cases hc : s.sh.cnt < 0
+    · have hc' : ¬ s.sh.cnt > 0 := by omega
+      simp only [hc, if_true] at hcb
+      simp only [hc', if_false]; omega
+    · simp only [hc, if_false] at hcb
+      by_cases hc' : s.sh.cnt > 0
+      · simp only [hc', if_true]; omega
+      · simp only [hc', if_false]; omega
+
 -- non-vacuity.
 -- actor 0 waits on an empty semaphore and parks; actor 1 posts: its fetch_add sees -1 and it is about to pop
 example : atPop ((run (init 2 0) [(0, .startWait), (0, .go), (0, .go), (0, .go),
@@ -98,5 +142,127 @@ example : let s := run (init 2 0) [(0, .startWait), (0, .go), (0, .go), (0, .go)
     (0, .abort), (0, .go), (0, .go), (0, .go),
     (1, .go), (1, .go), (1, .go)]
     s.sh.aph 0 = .a5 ∧ s.sh.vph 0 = .v4 ∧ s.sh.duty 0 = true ∧ s.pcs 1 = .p0fadd .fin ∧ s.pcs 0 = .done 0 := by decide
+-- the ledger on a run with a time-out racing a post: init 1; actor 0 takes the permit on the fast path; actor 1 waits,
+-- parks, is handed the permit by 0's post, times out all the same, sees `unparked` and re-posts; everybody idle:
+-- value 1 = 1 + 1 post − 1 success
+example : let s := run (init 2 1) [(0, .startWait), (0, .go), (0, .go), (0, .go),
+    (1, .startWait), (1, .go), (1, .go), (1, .go),
+    (0, .startPost), (0, .go), (0, .go), (0, .go), (0, .go), (0, .go), (0, .go),
+    (1, .abort), (1, .go), (1, .go), (1, .go)]
+    (∀ t, t < 2 → s.pcs t = .idle) ∧ s.sh.S = 1 ∧ s.sh.PX = 1 ∧ value s = 1 ∧ s.sh.Cd = 1 := by decide
 
 end MayVerif.Sem
+
+namespace MayVerif.SyncFlag
+
+/-- **One-way latch**: once `is_fired()` can read true (the counter is positive) it reads true in every later
+    state, whatever fire / wait / wait_timeout / is_fired steps, time-outs and cancellations follow
+    (hypothesis: fewer than isize::MAX actors, so that `isize::MAX - racing decrements` stays positive). -/
+theorem syncflag_latch (n : Nat) (hn : (n : Int) < MAXI) (s1 s2 : List (Nat × Env))
+    (h1 : isFired (run (init n) s1) = true) : isFired (run (init n) (s1 ++ s2)) = true := by
+  have hi1 := inv_run (init n) hn s1 (inv_init n)
+  have hf : (run (init n) s1).sh.fired = true := by
+    have := hi1.f1
+    simp only [isFired, decide_eq_true_eq] at h1
+    cases hfd : (run (init n) s1).sh.fired
+    · have := this hfd; omega
+    · rfl
+  have hf2 := run_fired _ s2 hf
+  rw [← run_append] at hf2
+  have hi2 := inv_run (init n) hn (s1 ++ s2) (inv_init n)
+  have hn2 : (run (init n) (s1 ++ s2)).n = n := by simpa [init] using run_n (init n) (s1 ++ s2)
+  have := hi2.f2 hf2
+  rw [hn2] at this
+  simp only [isFired, decide_eq_true_eq]
+  omega
+
+/-- `is_fired()` reads true exactly when some `fire()` has stored (never before the first fire, always after it). -/
+theorem syncflag_fired_iff (n : Nat) (hn : (n : Int) < MAXI) (sched : List (Nat × Env)) :
+    isFired (run (init n) sched) = true ↔ (run (init n) sched).sh.fired = true := by
+  have hi := inv_run (init n) hn sched (inv_init n)
+  have hn2 : (run (init n) sched).n = n := by simpa [init] using run_n (init n) sched
+  simp only [isFired, decide_eq_true_eq]
+  constructor
+  · intro h1
+    cases hfd : (run (init n) sched).sh.fired
+    · have := hi.f1 hfd; omega
+    · rfl
+  · intro hf
+    have := hi.f2 hf
+    rw [hn2] at this
+    omega
+
+/-- **After fire every future wait returns true** (and `is_fired()` returns true): in any state reached after a
+    `fire()` stored, an actor at the first load of `wait` / `wait_timeout` (resp. at the load of `is_fired`)
+    returns `true` with its next step – it never registers, never blocks. -/
+theorem syncflag_wait_after_fire (n : Nat) (hn : (n : Int) < MAXI) (sched : List (Nat × Env)) (t : Nat) (e : Env) (s' : St)
+    (hf : (run (init n) sched).sh.fired = true)
+    (ht : (run (init n) sched).pcs t = .w0load ∨ (run (init n) sched).pcs t = .i0load)
+    (hs : step (run (init n) sched) t e = some s') : s'.pcs t = .done 1 := by
+  have hpos := (syncflag_fired_iff n hn sched).mpr hf
+  simp only [isFired, decide_eq_true_eq] at hpos
+  generalize run (init n) sched = s at *
+  obtain ⟨m, sh, pcs⟩ := s
+  simp only at ht hpos
+  rcases ht with ht | ht <;>
+  · simp only [step, ht, tstep, hpos, if_true] at hs
+    split at hs
+    · simp only [Option.some.injEq] at hs
+      subst hs
+      simp [upd]
+    · contradiction
+
+/-- **After fire every current wait returns true** (quiescence form): if a `fire()` has stored and every actor
+    is idle or parked (nobody is mid-operation, in particular every `wakeup_all()` loop has finished), then every
+    parked waiter already holds its wake-up token, i.e. its park returns `Ok` and its wait returns true.
+    Under a fair scheduler: no waiter sleeps through a fire, also when it registered concurrently with it. -/
+theorem syncflag_no_stranded_waiter (n : Nat) (hn : (n : Int) < MAXI) (sched : List (Nat × Env))
+    (hq : ∀ t, t < n → (run (init n) sched).pcs t = .idle ∨ ∃ b, (run (init n) sched).pcs t = .w5park b)
+    (hf : (run (init n) sched).sh.fired = true) (t : Nat) (_ht : t < n) (b : Nat)
+    (hp : (run (init n) sched).pcs t = .w5park b) : (run (init n) sched).sh.tok b = true := by
+  have h := inv_run (init n) hn sched (inv_init n)
+  have hn2 : (run (init n) sched).n = n := by simpa [init] using run_n (init n) sched
+  generalize run (init n) sched = s at *
+  have hD0 : cntOf s.n drainer s.pcs = 0 := by
+    apply cntOf_zero_of; intro u hu
+    rcases hq u (by omega) with h0 | ⟨b', h0⟩ <;> simp [h0, drainer]
+  have hqnil : s.sh.q = [] := by
+    cases hql : s.sh.q with
+    | nil => rfl
+    | cons a l =>
+      have := h.f3 hf (by simp [hql])
+      omega
+  have hv0 : s.sh.vph b ≠ .v0 := by
+    have := h.n1 t b (by simp [hp, owns]) (by simp [hp, notPushed])
+    simpa [hqnil] using this
+  have hmid : ¬ (s.sh.vph b = .v1 ∨ s.sh.vph b = .v2 ∨ s.sh.vph b = .v3) := by
+    intro hm
+    obtain ⟨hw, hwn⟩ := h.n2 b hm
+    have hnq := wakes_not_quiet _ _ hw
+    rcases hq (s.sh.wk b) (by omega) with h0 | ⟨b', h0⟩
+    · exact hnq.1 h0
+    · exact hnq.2 b' h0
+  have hv4 : s.sh.vph b = .v4 := by
+    cases hv : s.sh.vph b <;> simp_all
+  exact h.n3 t b (by simp [hp, owns]) (Or.inr (Or.inr hv4))
+
+-- non-vacuity.
+-- actor 0 waits, registers and parks; actor 1 fires: the flag reads fired, 0 holds its token, its park returns, `done 1`
+example : let s := run (init 2) [(0, .startWait), (0, .go), (0, .go), (0, .go),
+    (1, .startFire), (1, .go), (1, .go), (1, .go), (1, .go), (1, .go), (1, .go), (1, .go)]
+    s.sh.fired = true ∧ s.pcs 0 = .w5park 0 ∧ s.pcs 1 = .idle ∧ s.sh.tok 0 = true := by decide +kernel
+example : (run (init 2) [(0, .startWait), (0, .go), (0, .go), (0, .go),
+    (1, .startFire), (1, .go), (1, .go), (1, .go), (1, .go), (1, .go), (1, .go), (1, .go), (0, .go)]).pcs 0 = .done 1 := by decide +kernel
+-- a waiter that loaded "not fired" before the fire decrements the fired counter: `cnt = MAX - 1`, still fired,
+-- and serves itself (pops its own blocker)
+example : let s := run (init 2) [(0, .startWait), (0, .go), (1, .startFire), (1, .go), (1, .go), (1, .go),
+    (0, .go), (0, .go), (0, .go)]
+    s.sh.cnt = MAXI - 1 ∧ isFired s = true ∧ s.pcs 0 = .wake1 0 0 (.toPark 0) := by decide +kernel
+-- a wait that starts after the fire returns true at its first load
+example : (run (init 2) [(1, .startFire), (1, .go), (0, .startWait), (0, .go)]).pcs 0 = .done 1 := by decide +kernel
+-- time-out racing the fire: the waiter registers `release`, the firing actor takes it and calls fire() again (nested)
+example : let s := run (init 2) [(0, .startWait), (0, .go), (0, .go), (0, .go), (0, .abort), (0, .go), (0, .go),
+    (1, .startFire), (1, .go), (1, .go), (1, .go), (1, .go), (1, .go)]
+    s.pcs 1 = .f0store 1 .fin ∧ s.pcs 0 = .w8load 0 := by decide +kernel
+
+end MayVerif.SyncFlag
